@@ -8,9 +8,9 @@ LB = "internal/loadbalancer"
 RL = "internal/ratelimiter"
 
 ENGINES = [
-    dict(name="S", path="engine/shim/vrt", serves_properties=["C02", "C04", "C05", "C06", "C07", "C08", "C09"],
+    dict(name="S", path="engine/shim/vrt", serves_properties=["C02", "C04", "C05", "C06", "C07", "C08", "C09", "C11", "C13"],
          kind_free_text="controlled cooperative scheduler + stateless replay DFS with preemption bounding over the real Helios code (sync/atomic/time/go/select rewritten onto shims by vgen)"),
-    dict(name="H", path="engine/shim/vh/hrun.go", serves_properties=["C02", "C04", "C05", "C06", "C07", "C08", "C09"],
+    dict(name="H", path="engine/shim/vh/hrun.go", serves_properties=["C02", "C04", "C05", "C06", "C07", "C08", "C09", "C11", "C13"],
          kind_free_text="explicit-state breadth-first search over event histories of the real objects under a virtual clock, reflective state fingerprint for deduplication, reference-model / monitor oracle on every transition"),
 ]
 
@@ -99,6 +99,30 @@ CHECKS = {
         jobs=[
             dict(name="c06jump", part="Jump", pkg=LB, run="TestVerifC06Jump", mode="instr", shards=dict(quick=16, thorough=16), timeout=dict(quick=600, thorough=3000)),
             dict(name="c06h", part="H", pkg=LB, run="TestVerifC06", mode="instr", shards=dict(quick=5, thorough=5), timeout=dict(quick=600, thorough=3000)),
+        ],
+        assumptions=[],
+    ),
+    "C11": dict(
+        level="model_checking",
+        engine="S+H",
+        technique="explicit-state BFS over admin-operation histories through the real admin handlers against a reference model + exhaustive preemption-bounded schedule exploration of concurrent admin actors and traffic with brute-force linearizability checking",
+        text="Every history up to the depth over 14 admin operations and traffic events (add with repeated names / weight 0 / unparsable address, remove incl. absent names, set_strategy incl. unknown, list, request, eject) is sent through the real adminapi handlers and the real ServeHTTP for five starting strategies and compared step by step with a reference model (status class, listing equals the model after every operation, failed operations change nothing, a switch preserves names/weights/health, requests are served by a listed eligible backend whenever one exists). 2-4 concurrent admin actors plus a traffic actor are explored under all interleavings up to the preemption bound; each complete call/return history must be linearizable with respect to the model (brute force over the <=8 calls) and every request must be served.",
+        note="The listing endpoint does not expose the strategy, so in concurrent histories only the entries are one atomic observation and the strategy is compared at quiescence; new backends get their scripted transport atomically with the add (scheduler hook).",
+        jobs=[
+            dict(name="c11h", part="H", pkg=LB, run="TestVerifC11H", mode="instr", shards=dict(quick=5, thorough=5), timeout=dict(quick=600, thorough=3000)),
+            dict(name="c11s", part="S", pkg=LB, run="TestVerifC11S", mode="instr", shards=dict(quick=6, thorough=9), timeout=dict(quick=600, thorough=3000)),
+        ],
+        assumptions=[],
+    ),
+    "C13": dict(
+        level="model_checking",
+        engine="S+H",
+        technique="explicit-state BFS over request-outcome histories with the published counters audited after every step + exhaustive preemption-bounded schedule exploration of overlapping requests audited at quiescence",
+        text="Every history up to the depth over {ok, 404, 500, refused, aborted-mid-body requests, eject-all, clock steps} with breaker and limiter on/off under the five strategies is replayed and after every step the numbers published by the real /v1/metrics and /v1/backends handlers are audited against the harness' tallies (requests issued, exactly one outcome per request, per-backend totals equal requests actually sent by the stubs, both gauges equal in-flight = 0). 2-3 overlapping requests (one aborting, one failing) on a shared backend are explored under all interleavings up to the preemption bound and audited at quiescence.",
+        note="Rate-limited, breaker-rejected and no-healthy-backend outcomes arise from the history (bucket of 3, failure_threshold 3, eject-all) rather than being injected; an abort is the real ErrAbortHandler path of httputil.ReverseProxy (ServerContextKey present). Real client disconnects are covered by the wire-level part of C03.",
+        jobs=[
+            dict(name="c13h", part="H", pkg=LB, run="TestVerifC13H", mode="instr", shards=dict(quick=8, thorough=16), timeout=dict(quick=600, thorough=3000)),
+            dict(name="c13s", part="S", pkg=LB, run="TestVerifC13S", mode="instr", shards=dict(quick=4, thorough=8), timeout=dict(quick=600, thorough=3000)),
         ],
         assumptions=[],
     ),
